@@ -5,7 +5,7 @@
 //! Library panics unwind out of the body and are caught by `spawn_agent`.
 
 use crate::containers::{BoxFut, Cont, LockOut};
-use crate::sched::{AgentCtx, Cmd, Outcome, PollResult, Report};
+use crate::sched::{AgentCtx, Cmd, Event, Outcome, PollResult, Report};
 use crate::types::*;
 use std::sync::Arc;
 use std::task::{Context, Poll};
@@ -71,7 +71,9 @@ pub fn body_for(call: Call, cont: Cont, owned: bool) -> Body {
         Call::Drop(gid) => Box::new(move |cx| {
             let g = cx.run.table.lock().unwrap().remove(&gid);
             let g = g.expect("harness bug: drop of a guard that is not in the table");
+            cx.push_event(Event::DropBegin(gid));
             drop(g);
+            cx.push_event(Event::GuardGone(gid));
             Outcome::Unit
         }),
         Call::Expire(d) => Box::new(move |cx| {
